@@ -18,7 +18,7 @@ RULE = ("Blocked leg (CPython 3.9-3.12): Hypothesis-generated thread bodies of c
         "blocks, a loop re-entering the same with at the same instruction position with different managers, try/finally, a "
         "generator-owned frame) whose every step ends at a gate; the inspector calls extract(thread), extract_since(frame), "
         "lowlevel.contexts_active_in_frame(frame) or inspect_frame(frame); schedules <gates passed before the call, dynamic index "
-        "j of the yield point reached inside inspect_frame / unwrap_thread / the other-thread search, number k of gates the "
+        "j of the yield point reached inside inspect_frame (the last of them between the completed snapshot and the walk over the exception table) / unwrap_thread / the other-thread search, number k of gates the "
         "target then passes - including 'returns from the frame', 'thread finishes' and 'finishes and a new thread is started'> "
         "are enumerated; plus a randomised stress run with a 1 microsecond switch interval. Oracle (racing): the worker does not "
         "die, the call does not raise, no reported frame belongs to the inspector or the decoy thread, and the contexts "
